@@ -33,6 +33,7 @@ type Behaviour struct {
 	DeployFail    bool           `json:"deploy_fail"`
 	DeployDelayMs int            `json:"deploy_delay_ms"`
 	IgnoreCancel  bool           `json:"ignore_cancel"` // a hanging step that does not react to the cancel signal
+	ProbeCloseFail bool          `json:"probe_close_fail"` // while the schema is probed, the write of the ATP "client done" message fails
 	Data          map[string]any `json:"data"`          // overrides of the produced output fields
 }
 
@@ -270,6 +271,8 @@ func (sdFactory) Create(_ *SDConfig, _ log.Logger) (deployer.Connector, error) {
 type sdConnector struct{}
 
 type sdPlugin struct {
+	failWriteFrom int32 // > 0: the n-th and later writes fail
+	writes        int32
 	reader *io.PipeReader
 	writer *io.PipeWriter
 	cancel context.CancelFunc
@@ -280,7 +283,12 @@ type sdPlugin struct {
 }
 
 func (p *sdPlugin) Read(b []byte) (int, error)  { return p.reader.Read(b) }
-func (p *sdPlugin) Write(b []byte) (int, error) { return p.writer.Write(b) }
+func (p *sdPlugin) Write(b []byte) (int, error) {
+	if n := atomic.AddInt32(&p.writes, 1); p.failWriteFrom > 0 && n >= p.failWriteFrom {
+		return 0, fmt.Errorf("scripted write failure")
+	}
+	return p.writer.Write(b)
+}
 func (p *sdPlugin) ID() string                  { return p.src }
 func (p *sdPlugin) Close() error {
 	var err error
@@ -336,5 +344,9 @@ func (c *sdConnector) Deploy(ctx context.Context, image string) (deployer.Plugin
 	} else {
 		s.add("deploy", image, "", "", nil)
 	}
-	return &sdPlugin{reader: stdoutReader, writer: stdinWriter, cancel: cancel, wg: wg, src: image, script: s}, nil
+	pl := &sdPlugin{reader: stdoutReader, writer: stdinWriter, cancel: cancel, wg: wg, src: image, script: s}
+	if probing && b.ProbeCloseFail {
+		pl.failWriteFrom = 2 // the first write starts the session, the second is the "client done" message
+	}
+	return pl, nil
 }
